@@ -154,6 +154,10 @@ class Kinds:
                 return "other"
             recv = e.func.value if isinstance(e.func, ast.Attribute) else None
             recv_is_mod = isinstance(recv, ast.Name) and recv.id in ("np", "numpy", "da", "dask", "scipy", "math") or (isinstance(recv, ast.Attribute) and src(recv).split(".")[0] in ("np", "numpy", "da", "dask", "scipy"))
+            if not recv_is_mod and isinstance(recv, ast.Name):
+                # a local alias of an array library bound by an import in each arm of a switch (`import numpy as numerical_module`)
+                ds_ = self.du.all_defs(recv.id)
+                recv_is_mod = bool(ds_) and all(isinstance(d_.stmt, (ast.Import, ast.ImportFrom)) for d_ in ds_)
             operands = list(e.args)
             if recv is not None and not recv_is_mod:
                 operands = [recv] + operands
@@ -176,7 +180,8 @@ class Kinds:
                 if "float" in ks:
                     return "float"
                 if "raw" in ks:
-                    return "raw"
+                    # the promotion of a raw array with one of unknown dtype is not known to be raw (as for the operators)
+                    return "raw" if all(k_ == "raw" for k_ in ks) or fn in ARG0_ONLY else "other"
                 return "other" if ks else "int"
             # a function of the package: the kind of what it returns, with the arguments' kinds bound to its parameters
             if self.depth < 2:
@@ -204,13 +209,36 @@ class Kinds:
         return "other"
 
 
-def check_function(P, R, key, raw_params=(), raw_attrs=(), rule="DTYPE.raw"):
-    """R1 and R2 on one function.  Returns the number of product / store sites classified."""
+def check_function(P, R, key, raw_params=(), raw_attrs=(), rule="DTYPE.raw", _depth=0, _seen=None):
+    """R1 and R2 on one function, and on the helpers of the package that receive one of its raw arrays (with the raw-ness of the
+    arguments bound to their parameters).  Returns the number of product / store sites classified."""
     f = P.func(key)
     R.analysed(f)
     K = Kinds(P, f, raw_params, raw_attrs)
     du = K.du
     n = 0
+    _seen = _seen if _seen is not None else set()
+    _seen.add((key, tuple(sorted(raw_params))))
+    if _depth < 2:
+        for node in walk_no_nested(f.node):
+            if not isinstance(node, ast.Call):
+                continue
+            st = du.stmt_of(node)
+            if st is None:
+                continue
+            try:
+                kind_, fexpr, args, kws = P.peel_call(node, f)
+                tg = [t[1] for t in P.resolve_callee(fexpr, f) if t[0] == "repo"]
+            except Exception:
+                tg = []
+            for callee in tg[:1]:
+                try:
+                    bound = P.bind_args(callee, args, kws)
+                except Exception:
+                    continue
+                rawp = tuple(sorted(p_ for p_, a_ in bound.items() if a_ is not None and K.kind(a_, st) == "raw"))
+                if rawp and (callee.key, rawp) not in _seen:
+                    n += check_function(P, R, callee.key, rawp, raw_attrs, rule, _depth + 1, _seen)
     for node in walk_no_nested(f.node):
         st = du.stmt_of(node)
         if st is None:
